@@ -9,14 +9,25 @@ package nfsv4
 // Lock wrappers (C14)
 
 //@ func (*nfs40Program).enter
-//@   props C14
+//@   props C14 C18
 //@   lockeffect p.lock +1
+//@   trustcall downgradeShareAccess -- representation invariant: the share counts of an open-owner file state that is registered in the program's tables are consistent with its share mask
+//@   loop 2 entry every-client-whose-lease-ran-out-was-removed-first:
+//@             p.idleClientConfirmations.nextIdle == &p.idleClientConfirmations || !(p.idleClientConfirmations.nextIdle.lastSeen < minimumLastSeen)
+//@   at call empty#1 assert every-open-owner-unused-for-a-lease-time-was-removed:
+//@             p.unusedOpenOwners.nextUnused == &p.unusedOpenOwners || !(p.unusedOpenOwners.nextUnused.lastUsed < minimumLastSeen)
+//@   at call empty#1 assert decides-on-the-list-of-files-this-round-collected: arg0 == &ll
+//@   at call closeAll#1 assert files-of-expired-clients-are-closed-without-the-server-lock: held(p.lock) == 0
 //@ func (*nfs40Program).leave
 //@   props C14
 //@   lockeffect p.lock -1
 //@ func (*nfs41Program).enter
-//@   props C14
+//@   props C14 C18
 //@   lockeffect p.clientsLock +1
+//@   at call empty#1 assert every-client-whose-lease-ran-out-was-removed:
+//@             p.idleClientIncarnations.nextIdle == &p.idleClientIncarnations || !(p.idleClientIncarnations.nextIdle.lastSeen < minimumLastSeen)
+//@   at call empty#1 assert decides-on-the-list-of-files-this-round-collected: arg0 == &ll
+//@   at call closeAll#1 assert files-of-expired-clients-are-closed-without-the-server-lock: held(p.clientsLock) == 0
 //@ func (*nfs41Program).leave
 //@   props C14
 //@   lockeffect p.clientsLock -1
@@ -194,10 +205,12 @@ package nfsv4
 //@   props C18
 //@   requires scInv(oofs.shareCount, *shareAccess) && *shareAccess <= 3 && newShareAccess <= 3
 //@   ensures owed-close-is-queued: len(ll.leaves) - old(len(ll.leaves)) == unsettled(nil) - old(unsettled(nil))
+//@   ensures the-mask-becomes-the-requested-one: *shareAccess == newShareAccess
 //@ func (*nfs41OpenOwnerFileState).downgradeShareAccess
 //@   props C18
 //@   requires scInv(oofs.shareCount, *shareAccess) && *shareAccess <= 3 && newShareAccess <= 3
 //@   ensures owed-close-is-queued: len(ll.leaves) - old(len(ll.leaves)) == unsettled(nil) - old(unsettled(nil))
+//@   ensures the-mask-becomes-the-requested-one: *shareAccess == newShareAccess
 
 // The completion callbacks of READ/WRITE/SETATTR give back the share
 // reservation they cloned; if that was the last one, the leaf is closed.
@@ -220,6 +233,22 @@ package nfsv4
 //@   at call delete#3 ghostset ownerforgotten[nil] = 1
 //@   ensures a-lock-owner-without-file-states-is-forgotten: len(los.files) == 0 ==> ownerforgotten(nil) == 1
 //@   ensures exactly-this-file-state-leaves-the-owner: len(los.files) == old(len(lofs.lockOwner.files)) - 1 && lofs.lockOwnerIndex == -1
+
+// NFSv4.0 CLOSE is done in two phases. The first gives up the lock states and
+// every access mode of the open but keeps the open state registered, so that a
+// retransmitted CLOSE still resolves its state ID (C19); the second, run by the
+// next transaction of the open-owner, unregisters it and gives the opened file
+// back to the pool (C18).
+//@ func (*nfs40OpenOwnerFileState).removeStart
+//@   props C18 C19
+//@   trustcall downgradeShareAccess -- representation invariant: the share counts of a registered open-owner file state are consistent with its share mask
+//@   ensures every-access-mode-is-given-up: oofs.shareAccess == 0
+//@   ensures the-state-id-stays-resolvable-for-a-retransmitted-close:
+//@             oofs.openOwner == old(oofs.openOwner) &&
+//@             (old(oofs.stateID.other in p.openOwnerFilesByOther) ==> oofs.stateID.other in p.openOwnerFilesByOther && p.openOwnerFilesByOther[oofs.stateID.other] == old(p.openOwnerFilesByOther[oofs.stateID.other]))
+//@ func (*nfs40OpenOwnerFileState).removeFinalize
+//@   props C18 C19
+//@   ensures the-open-state-is-unregistered: oofs.openOwner == nil && !(old(oofs.stateID.other) in p.openOwnerFilesByOther)
 
 // Lease expiry only looks at the head of the list of idle clients, so the list
 // must be ordered by the time a client became idle: a client that becomes idle
